@@ -30,7 +30,12 @@ N == Cardinality(Target)
 \* final states stutter, so that CHECK_DEADLOCK means "never stuck before the end"
 Terminated == result # "running" /\ UNCHANGED vars
 
-MCNext == (Next \/ Terminated) /\ UNCHANGED stage
+Running == stage = "run" /\ UNCHANGED stage
+RunStart  == Running /\ \E t \in Target : Start(t)
+RunLoop   == Running /\ Loop
+RunFinish == Running /\ Finish
+RunEnded  == Running /\ Terminated
+MCNext == RunStart \/ RunLoop \/ RunFinish \/ RunEnded        \* = (Next \/ Terminated), stage unchanged
 MCSpec == Init /\ stage = "run" /\ [][MCNext]_<<vars, stage>> /\ WF_vars(Next)
 
 Graphs == {d \in [Target -> SUBSET Target] : SelfDeps \/ \A t \in Target : t \notin d[t]}
@@ -48,11 +53,6 @@ PickRequest == /\ stage = "request"
                /\ stage' = "run"
                /\ requested' \in (SUBSET Target) \ {{}}
                /\ UNCHANGED <<deps, executed, result>>
-Running == stage = "run" /\ UNCHANGED stage
-RunStart  == Running /\ \E t \in Target : Start(t)
-RunLoop   == Running /\ Loop
-RunFinish == Running /\ Finish
-RunEnded  == Running /\ Terminated
 SNext == PickGraph \/ PickRequest \/ RunStart \/ RunLoop \/ RunFinish \/ RunEnded
 
 \* the clauses do not mention target names: graphs equal up to renaming are
